@@ -166,6 +166,14 @@ func (b *Built) build(e *Expr, h *Hooks) parsley.Parser {
 		p = parser.End()
 	case OpNT:
 		p = &b.NTs[e.NT]
+		if e.ID%3 == 0 {
+			// a third of the references go through the library's own device for recursive definitions: a
+			// parser.FuncWrapper whose function is the nonterminal (called when the reference is used, by which time it is set)
+			nt := e.NT
+			p = parser.FuncWrapper{F: func(ctx *parsley.Context, lrc data.IntMap, pos parsley.Pos) (parsley.Node, data.IntSet, parsley.Error) {
+				return b.NTs[nt](ctx, lrc, pos)
+			}}
+		}
 	default:
 		if h.ShareExprs && h.NameOf == nil {
 			if sp, ok := b.shared[e.String()]; ok {
